@@ -1,4 +1,5 @@
 import AkVerif.Lemmas.LLFactAll
+import AkVerif.Lemmas.LLSession
 /-!
 # C01 — every parse result is a valid derivation of the user's grammar
 
@@ -69,7 +70,29 @@ theorem parse_valid (inp : CtorIn) (P : Parser) (hP : construct inp = .ok P)
   have hB := construct_built hP
   have h1 := verifyPart1_ok hB.hV
   obtain ⟨hD, _⟩ := factRelD_of_built hB
-  exact parse_sound_of_rel hB (factRel_of_D h1 hD) (start_user_of_built hB hstart) raw hEnd fuel t h
+  exact parse_sound_of_rel hB.core (factRel_of_D h1 hD) (start_user_of_built hB hstart) raw hEnd fuel t h
+
+/-- **The same for `parse(text, start_symbol_name=s)`** with `s` any key of `productions`: the tree is
+rooted at `s` and is a derivation of the user's grammar from `s` (the documented "parse a fragment"
+feature runs the same loop on the same table from `$START$ → s $END$`). -/
+theorem parse_from_valid (inp : CtorIn) (P : Parser) (hP : construct inp = .ok P) (s : List Char)
+    (hs : s ∈ inp.prods.map (·.1)) (raw : List (List Char × List Char))
+    (hEnd : ∀ tok ∈ (P.tokens raw).dropLast, tok.name ≠ endSym)
+    (fuel : Nat) (t : Tree Sym) (h : P.parseFrom s raw fuel = .ok t) :
+    t.name = parseSym s ∧ Derives P.terminals P.userProds t ∧ NoHelper P.suffix t ∧
+      t.yield = (P.tokens raw).dropLast :=
+  parseFrom_sound (construct_built hP) s hs raw hEnd fuel t h
+
+/-- **A parser object has no memory between calls.**  In the model `parse` / `parseFrom` /
+`is_ambiguous` are functions of the constructed parser, the start symbol and the tokens; the state
+the driver threads through a sequence of requests is the parser itself, and every request other than
+`g` (construct) and `reset` leaves it unchanged — so the answer to a call does not depend on the
+calls made before it (explicit start symbol then default, parse after a failed parse, …).  The
+correspondence issues such call sequences on one real parser object. -/
+theorem no_memory (st : Option Parser) (line : String)
+    (h1 : ∀ rest, Ak.Proto.splitWs line ≠ "reset" :: rest) (h2 : ∀ args, Ak.Proto.splitWs line ≠ "g" :: args) :
+    (LL.Drv.handle st line).1 = st :=
+  handle_keeps_parser st line h1 h2
 
 /-! Non-vacuity: the nested-common-prefix grammar `A → x y z | x y | x` (start `A`), both
 `smart_factorization` values, input `x y`: the constructor succeeds and `parse` returns a tree
